@@ -288,6 +288,12 @@ func genHistory(t *rapid.T, o jGenOpts) (*History, map[string]int) {
 		// feeds may carry the same timestamp (two snapshots within one second): dt = 0 is part of the domain
 		tcur += int64(rapid.SampledFrom([]int{0, 1, 1, 5, 30, 120}).Draw(t, "dt"))
 		f := JFeed{CreatedAt: tcur}
+		if huge == 0 && rapid.IntRange(0, 11).Draw(t, "noHeaderTimestamp") == 0 {
+			// a feed without a header timestamp: its time is the zero time.Time (Unix -62135596800), which is a time like any
+			// other for "last observed" and "marked past"
+			f.CreatedAt = -62135596800
+			ops["feed-without-timestamp"]++
+		}
 		order := seqInts(nT)
 		if nT > 1 {
 			order = rapid.Permutation(order).Draw(t, "tripOrder")
